@@ -947,7 +947,17 @@ pub fn specs_for<V: Val>(property: &str, thorough: bool) -> Vec<Spec> {
                         for fw in &fws {
                             let cfg = Config { flavour: fl, policy: pol, limit: *lim, ttl: *ttl, max_memory: *mem, fw: *fw, vtype: V::NAME };
                             if let Some(s) = spec_for::<V>(property, thorough, cfg, &mp) {
+                                // async TLRU with ttl: the age factor only moves in whole seconds, so the same depth with
+                                // whole-second steps reaches ages (and score orders) that half-second steps do not
+                                let coarse = if property == "C08" && s.cfg.flavour == Flavour::Async && s.cfg.policy == Pol::Tlru && s.cfg.ttl.is_some() {
+                                    let mut c = s.clone();
+                                    c.tick_ns = Some(NS);
+                                    Some(c)
+                                } else {
+                                    None
+                                };
                                 out.push(s);
+                                out.extend(coarse);
                             }
                         }
                     }
